@@ -492,6 +492,7 @@ type LoopSpec struct {
 	Invariants []Clause
 	Decreases  *Clause
 	Exits      []Clause // asserted on every state leaving the loop
+	Steps      []Clause // relation between the start of an iteration (prev(e)) and its end, asserted at the back edge
 }
 
 type FuncContract struct {
@@ -509,6 +510,7 @@ type FuncContract struct {
 	Line         int
 	NoOverflow   []string
 	Domain       []Clause
+	AssumeAfter  []Clause     // unchecked assumptions after calls to a callee (Case = callee key), over result/result1
 	AssumeBefore []Clause     // unchecked assumptions before calls to a callee (Case = callee key)
 	Writes       []Clause     // per-store assertions (Case = variable name)
 	Havoc        bool         // callee may change every heap location; only its ensures (none, or proved separately) are assumed
@@ -701,6 +703,16 @@ func ParseContractFile(src, path string) (cf *ContractFile, err error) {
 				cur.Findings = append(cur.Findings, c)
 			case "case":
 				curCase = rest
+			case "assume-after":
+				// assume-after CALLEEKEY: expr over result/result1 -- unchecked assumption (listed) right after calls to that callee
+				idx := strings.Index(rest, ": ")
+				if idx < 0 {
+					panic(fmt.Errorf("%s:%d: assume-after syntax: assume-after KEY: expr", path, l.line))
+				}
+				c := mk(strings.TrimSpace(rest[idx+2:]), l.line)
+				c.Case = strings.TrimSpace(rest[:idx])
+				cur.AssumeAfter = append(cur.AssumeAfter, c)
+				cf.Assumptions = append(cf.Assumptions, fmt.Sprintf("assume-after %s in %s: %s", c.Case, cur.Key, c.Text))
 			case "assume-before":
 				// assume-before CALLEEKEY: expr  -- unchecked assumption (listed) right before calls to that callee
 				idx := strings.Index(rest, ": ")
@@ -799,6 +811,8 @@ func ParseContractFile(src, path string) (cf *ContractFile, err error) {
 					ls.Invariants = append(ls.Invariants, mk(r2, l.line))
 				case "exit":
 					ls.Exits = append(ls.Exits, mk(r2, l.line))
+				case "step":
+					ls.Steps = append(ls.Steps, mk(r2, l.line))
 				case "decreases":
 					c := mk(r2, l.line)
 					ls.Decreases = &c
